@@ -110,8 +110,65 @@ func genStructural(r *h.Rand, d delims) (string, string) {
 		{"  \n" + act(`extends "/base.jet"`) + "\n " + LC + "c" + RC + post, "ok"},
 		{pre + act("block b()") + "x" + act("content") + "d" + act("end") + act("yield b() content") + "c" + act("end") + post, "ok"},
 	}
+	if r.Chance(40) {
+		return genStrayClause(r, act, pre)
+	}
 	c := cases[r.Intn(len(cases))]
 	return c.src, c.want
+}
+
+// a clause marker (else / else if / content / catch) in every kind of body: accepted only by the
+// construct it belongs to, a parse error everywhere else - whatever follows
+func genStrayClause(r *h.Rand, act func(string) string, pre string) (string, string) {
+	type ctx struct {
+		open  string
+		kind  string
+		depth int
+	}
+	ctxs := []ctx{
+		{"", "top", 0},
+		{act("if true"), "if", 1},
+		{act("if true") + "a" + act("else"), "else", 1},
+		{act("if true") + "a" + act("else if false"), "if", 1},
+		{act("range x"), "range", 1},
+		{act("range x") + "a" + act("else"), "else", 1},
+		{act("block sb()"), "block", 1},
+		{act("block sb()") + "a" + act("content"), "content", 1},
+		{act("try"), "try", 1},
+		{act("try") + "a" + act("catch"), "catch", 1},
+		{act("try") + "a" + act("catch e"), "catch", 1},
+		{act("yield sb() content"), "ycontent", 1},
+	}
+	markers := []struct{ src, legalIn string }{
+		{"else", "if range"}, {"else if true", "if"}, {"content", "block"}, {"catch", "try"}, {"catch e", "try"},
+	}
+	c := ctxs[r.Intn(len(ctxs))]
+	m := markers[r.Intn(len(markers))]
+	open, kind, depth := c.open, c.kind, c.depth
+	if r.Chance(30) {
+		// one more body in between: the marker no longer sits in the construct it belongs to
+		w := r.Pick([]string{"if true", "range x", "try", "block sw()"})
+		open += "b" + act(w)
+		kind = map[string]string{"if true": "if", "range x": "range", "try": "try", "block sw()": "block"}[w]
+		depth++
+	}
+	legal := false
+	for _, k := range strings.Fields(m.legalIn) {
+		if k == kind {
+			legal = true
+		}
+	}
+	src := pre + open + "c" + act(m.src) + "d"
+	if legal {
+		for i := 0; i < depth; i++ {
+			src += act("end")
+		}
+		return src + "e", "ok"
+	}
+	for i := r.Intn(depth + 3); i > 0; i-- {
+		src += act("end") + "e"
+	}
+	return src, "error"
 }
 
 func genCycleCase(r *h.Rand) h.Case {
